@@ -282,6 +282,77 @@ theorem fpReach_nodup (dflt : ν) (lv : Nat → FpLevel) :
         simp [hab]
 
 
+/-! ### the same for fibers that are only unique (created with `ordered=False`) -/
+
+theorem fpUniq_of_wf : ∀ (d : Nat) (t : Tree Int ν d), WF d t → FpUniq d t := by
+  intro d
+  induction d with
+  | zero => intro t _; trivial
+  | succ d ih =>
+    intro t hw
+    have hs : List.Pairwise (fun x y => x.1 < y.1) (show List (Int × Tree Int ν d) from t) := hw.1
+    exact ⟨hs.imp (fun {a b} h => by omega), fun e he => ih e.2 (hw.2 e he)⟩
+
+theorem fpChildAt_uniq (d : Nat) (f : Tree Int ν (d + 2)) (hw : FpUniq (d + 2) f) (c : Int) :
+    FpUniq (d + 1) (fpChildAt d f c) := by
+  unfold fpChildAt
+  cases hl : lookup (show List (Int × Tree Int ν (d + 1)) from f) c with
+  | none =>
+    simp only [Option.getD_none, fpEmptyFiber]
+    exact ⟨List.Pairwise.nil, fun e he => by cases he⟩
+  | some g =>
+    simp only [Option.getD_some]
+    exact hw.2 (c, g) (fp_lookup_mem hl)
+
+theorem fpKids_uniq (dflt : ν) (l : FpLevel) (d : Nat) (f : Tree Int ν (d + 2)) (hw : FpUniq (d + 2) f) :
+    ∀ k ∈ fpKids dflt l d f, FpUniq (d + 1) k.2 := by
+  intro k hk
+  cases hfmt : l.format with
+  | U =>
+    obtain ⟨_, _, h2⟩ := (mem_fpKids_U hfmt k).1 hk
+    rw [h2]; exact fpChildAt_uniq d f hw _
+  | C =>
+    obtain ⟨h0, _⟩ := (mem_fpKids_C hfmt k).1 hk
+    exact hw.2 k h0
+
+theorem fpKids_pairwise_uniq (dflt : ν) (l : FpLevel) (d : Nat) (f : Tree Int ν (d + 2))
+    (hw : FpUniq (d + 2) f) : (fpKids dflt l d f).Pairwise (fun a b => a.1 ≠ b.1) := by
+  cases hfmt : l.format with
+  | U =>
+    simp only [fpKids, hfmt, List.pairwise_map]
+    exact List.pairwise_lt_range.imp (fun {a b} h => by omega)
+  | C =>
+    simp only [fpKids, hfmt, present]
+    have hs : List.Pairwise (fun x y => x.1 ≠ y.1) (show List (Int × Tree Int ν (d + 1)) from f) := hw.1
+    exact hs.filter _
+
+theorem fpReach_nodup_uniq (dflt : ν) (lv : Nat → FpLevel) :
+    ∀ (d : Nat) (f : Tree Int ν (d + 1)), FpUniq (d + 1) f →
+      ((fpReach dflt lv d f).map (·.1)).Nodup := by
+  intro d
+  induction d with
+  | zero => intro f _; simp [fpReach]
+  | succ d ih =>
+    intro f hw
+    simp only [fpReach, List.map_cons, List.map_flatMap, List.map_map]
+    refine List.nodup_cons.2 ⟨?_, ?_⟩
+    · intro hm
+      obtain ⟨k, _, hm⟩ := List.mem_flatMap.1 hm
+      obtain ⟨r, _, hr⟩ := List.mem_map.1 hm
+      simp at hr
+    · unfold List.Nodup
+      refine List.pairwise_flatMap.2 ⟨?_, ?_⟩
+      · intro k hk
+        have := ih k.2 (fpKids_uniq dflt _ d f hw k hk)
+        unfold List.Nodup at this
+        rw [List.pairwise_map] at this ⊢
+        exact this.imp (fun {a b} h => by simpa using h)
+      · refine (fpKids_pairwise_uniq dflt _ d f hw).imp ?_
+        intro a b hab x hx y hy
+        obtain ⟨r, _, rfl⟩ := List.mem_map.1 hx
+        obtain ⟨r', _, rfl⟩ := List.mem_map.1 hy
+        simp [hab]
+
 /-! ### the raw walk by depth -/
 
 theorem mem_fpFibersAt_succ (d : Nat) (f : Tree Int ν (d + 2)) (i : Nat) (e : FpRankEntry) :
